@@ -27,12 +27,34 @@
 namespace celma { namespace common {
 
 
+namespace detail {
+
+
+/// Holds the 'active' flag of a ManagedThread.<br>
+/// Must be a base class that is listed \a before std::thread: the thread is
+/// started by the constructor of std::thread, so the flag must be completely
+/// initialised before that. As a member of ManagedThread it would be
+/// initialised \a after the thread was started already, overwriting the value
+/// that the new thread may have set in the meantime.
+/// @since  x.y.z, 01.10.2026
+class ManagedThreadFlag
+{
+protected:
+   /// Flag, set by the thread before the thread function is executed, cleared
+   /// when the thread function returnes, i.e. finished its work.
+   std::atomic< bool>  mActive{ false};
+}; // ManagedThreadFlag
+
+
+} // namespace detail
+
+
 /// Small helper class that provides the information if the thread is still
 /// active or if it finished its work.<br>
 /// When this object is destroyed, it calls \c join(), so the calling
 /// application does not need to do that.
 /// @since  012, 19.01.2017
-class ManagedThread final: public std::thread
+class ManagedThread final: private detail::ManagedThreadFlag, public std::thread
 {
 public:
    /// Constructor, creates the thread which immediately starts its work.
@@ -66,11 +88,6 @@ public:
 
    // move-assignment is also not allowed
    ManagedThread& operator =( ManagedThread&&) = delete;
-
-private:
-   /// Flag, set by the thread before the thread function is executed, cleared
-   /// when the thread function returnes, i.e. finished its work.
-   std::atomic< bool>  mActive{ false};
 
 }; // ManagedThread
 
